@@ -1080,14 +1080,14 @@ pub fn execute(plan: &Plan, obs: &mut Obs) -> Result<(), Fail> {
 
 pub fn doc_units(tier: Tier) -> u64 {
     match tier {
-        Tier::Quick => 2 * DOC_TYPES as u64,
+        Tier::Quick => 4 * DOC_TYPES as u64,
         Tier::Thorough => 20 * DOC_TYPES as u64,
     }
 }
 
 pub fn call_units(tier: Tier) -> u64 {
     match tier {
-        Tier::Quick => 600,
+        Tier::Quick => 1_200,
         Tier::Thorough => 12_000,
     }
 }
@@ -1769,7 +1769,7 @@ impl Scenario for C20 {
         }
     }
     fn rule() -> String {
-        "Fault enumeration on durable JSON: for each seeded document (one small and one medium object of each of 15 types in quick, ten of each in thorough; saved through its direct loader, through the tagged container, and for calendars inside CalType) EVERY truncation offset, EVERY member deletion and duplication at every depth, EVERY scalar x every alternative value, every array grow/shrink/reverse, every enum-tag swap, and the misdirected read by every other loader are executed; single-byte damage and torn splices of two versions are sampled. Each evaluation = one load of one faulty text, checked for: no unwind, and if accepted, the type's shape invariants and a non-unwinding query suite. In addition (generation only): constructor and date-arithmetic calls over the documented argument ranges under the same no-unwind monitor. Distinct = distinct plan digest; non-trivial = the text differs from a valid document, or the evaluation is a generated call.".into()
+        "Fault enumeration on durable JSON: for each seeded document (two small and two medium objects of each of 15 types in quick; 300 documents incl. large ones in thorough; saved through its direct loader, through the tagged container, and for calendars inside CalType) EVERY truncation offset, EVERY member deletion and duplication at every depth, EVERY scalar x every alternative value, every array grow/shrink/reverse, every enum-tag swap, and the misdirected read by every other loader are executed; single-byte damage and torn splices of two versions are sampled. Each evaluation = one load of one faulty text, checked for: no unwind, and if accepted, the type's shape invariants and a non-unwinding query suite. In addition (generation only): constructor and date-arithmetic calls over the documented argument ranges under the same no-unwind monitor. Distinct = distinct plan digest; non-trivial = the text differs from a valid document, or the evaluation is a generated call.".into()
     }
     fn assumptions() -> Vec<String> {
         vec![
